@@ -89,7 +89,7 @@ def run(ctx):
         "distinct_tables": distinct,
         "distribution": "stsc 1-5 entries x 1-3 chunks x 1-4 samples/chunk (30% varying description ids); "
                         "stts/ctts 1-6 runs (ctts v0/v1 60%); stsz uniform 25%; stco/co64; "
-                        "stss 70% (density 0/10/30/100%); sdtp 40%; 10% near-2^32 values; 4% zero deltas; 12 single-fault mutations; "
+                        "stss 70% (density 0/10/30/100%); sdtp 40%; 10% near-2^32 values; 4% zero deltas; 14 single-fault mutations (incl. uint32-wrapping EndSampleNr / FirstSampleNr caches); "
                         "build history per table: ctts and stsc each 40% empty box + calls, 20% decoder only, 40% decoded prefix (0..n rows) "
                         "+ calls; ctts rows split into 1-4 AddSampleCountsAndOffset calls (12% empty calls); stsc one AddEntry per row, 30% a "
                         "SetSingleSampleDescriptionID after a constant-id prefix whose ids were scrambled before (2/3); malformed stream: 50% "
